@@ -755,6 +755,15 @@ class Evaluator:
             p = self.db.params.get(e[1])
             if isinstance(p, V):
                 return p
+            if e[1].startswith("{") and e[1].endswith("}"):
+                try:
+                    return self.db.json_const(e[1])  # a jsonb literal written as a plain string
+                except Unsupported:
+                    return V("opaque", None)
+                except ValueError:
+                    pass
+            if e[1].startswith("[") and e[1].endswith("]"):
+                return V("opaque", None)
             return vstr(e[1])
         if k == "null":
             return V("opaque", None, z3.BoolVal(True))
@@ -794,6 +803,9 @@ class Evaluator:
             op = e[1]
             a, b = self.ev(e[2], env, group), self.ev(e[3], env, group)
             null = z3.Or(a.null, b.null)
+            if op == "-" and a.kind == "json":
+                key = self.json_key(e[3], b)
+                return V("json", {kk: ((z3.BoolVal(False), z3.StringVal("")) if kk == key else a.z[kk]) for kk in a.z}, a.null)
             if op in ("+", "-", "*"):
                 z = {"+": a.z + b.z, "-": a.z - b.z, "*": a.z * b.z}[op]
                 return vint(z, null)
@@ -803,8 +815,7 @@ class Evaluator:
                 if a.kind == "str" and b.kind == "str":
                     return vstr(z3.Concat(a.z, b.z), null)
                 raise Unsupported(f"|| on {a.kind},{b.kind}")
-            if op == "-" and a.kind == "json":
-                raise Unsupported("jsonb - key")
+
             if op in ("->", "->>"):
                 if a.kind != "json":
                     raise Unsupported(f"-> on {a.kind}")
@@ -815,6 +826,10 @@ class Evaluator:
         if k == "cmp":
             op = e[1]
             a, b = self.ev(e[2], env, group), self.ev(e[3], env, group)
+            if a.kind == "opaque" and a.z is None and b.kind != "opaque":
+                a = null_like(b) if z3.is_true(a.null) else a
+            if b.kind == "opaque" and b.z is None and a.kind != "opaque":
+                b = null_like(a) if z3.is_true(b.null) else b
             null = z3.Or(a.null, b.null)
             if op == "=":
                 return eq_v(a, b)
@@ -966,8 +981,11 @@ class Evaluator:
             for v in reversed(vals[:-1]):
                 res = ite_v(z3.Not(v.null), v, res)
             return res
-        if fn == "least":
+        if fn in ("least", "greatest"):
             vals = [self.ev(a, env, group) for a in args]
+            typed = [v for v in vals if v.kind == "int"]
+            vals = [vnull("int") if (v.kind == "opaque" and v.z is None) else v for v in vals] if typed else vals
+        if fn == "least":
             res = vals[0]
             for v in vals[1:]:
                 # LEAST ignores NULLs
@@ -975,14 +993,18 @@ class Evaluator:
                 res = V("int", z3.If(take, v.z, res.z), z3.And(res.null, v.null))
             return res
         if fn == "greatest":
-            vals = [self.ev(a, env, group) for a in args]
             res = vals[0]
             for v in vals[1:]:
                 take = z3.And(z3.Not(v.null), z3.Or(res.null, v.z > res.z))
                 res = V("int", z3.If(take, v.z, res.z), z3.And(res.null, v.null))
             return res
-        if fn in ("pg_advisory_xact_lock", "pg_advisory_lock", "pg_advisory_unlock", "hashtext"):
+        if fn in ("pg_advisory_xact_lock", "pg_advisory_lock", "pg_advisory_unlock", "hashtext", "nextval"):
             return V("opaque", None)
+        if fn.split(".")[-1] == "transaction_date":
+            p = self.db.params.get("transaction_date()")
+            if p is None:
+                raise Unsupported("transaction_date() without a parameter")
+            return p
         raise Unsupported(f"function {fn}")
 
     # ---- relations
@@ -1012,6 +1034,12 @@ class Evaluator:
             rows = []
             for row in stmt[1]:
                 rows.append(Row(z3.BoolVal(True), [self.ev(x, Env(outer=outer)) for x in row]))
+            for ci in range(len(rows[0].vals)):
+                typed = [r.vals[ci] for r in rows if not (r.vals[ci].kind == "opaque" and r.vals[ci].z is None)]
+                if typed:
+                    for r in rows:
+                        if r.vals[ci].kind == "opaque" and r.vals[ci].z is None:
+                            r.vals[ci] = null_like(typed[0])
             return Rel([(None, f"column{i+1}") for i in range(len(stmt[1][0]))], rows)
         if k == "union_all":
             a, b = self.rel(stmt[1], outer, ctes), self.rel(stmt[2], outer, ctes)
@@ -1154,8 +1182,12 @@ class Evaluator:
             rel_for_keys = Rel(rel.cols + [(None, c[1]) for c in out_cols], [Row(r.guard, r.vals + o.vals) for r, o in zip(rel.rows, out_rows)])
             if s["distinct_on"]:
                 res = self.distinct_on(res, rel_for_keys, s["distinct_on"], s["order"], outer)
-        if grouped and s["distinct_on"]:
-            res = self.distinct_on(res, res, s["distinct_on"], s["order"], outer)
+                rel_for_keys = Rel(rel_for_keys.cols, [Row(r.guard, k.vals) for r, k in zip(res.rows, rel_for_keys.rows)])
+        if grouped:
+            rel_for_keys = res
+            if s["distinct_on"]:
+                res = self.distinct_on(res, res, s["distinct_on"], s["order"], outer)
+                rel_for_keys = res
         # ORDER BY / LIMIT / OFFSET: results are compared as sets of rows; a LIMIT is honoured only when it cannot cut
         if s["limit"] is not None:
             lim = self.ev(s["limit"], Env(outer=outer))
@@ -1163,7 +1195,7 @@ class Evaluator:
             if z3.is_int_value(lim.z) and lim.z.as_long() >= n:
                 pass
             elif z3.is_int_value(lim.z) and lim.z.as_long() == 1:
-                res = self.limit_one(res, s["order"], outer)
+                res = self.limit_one(res, rel_for_keys, s["order"], outer)
             elif z3.is_int_value(lim.z):
                 # more row slots than the limit (joins multiply slots): the evaluation is restricted to contents whose
                 # result fits the page; recorded as an assumption of the obligation
@@ -1237,14 +1269,15 @@ class Evaluator:
             out.append(Row(z3.And(res.rows[i].guard, z3.Not(z3.Or(*beaten)) if beaten else z3.BoolVal(True)), res.rows[i].vals))
         return Rel(res.cols, out)
 
-    def limit_one(self, res, order, outer):
+    def limit_one(self, res, keyrel, order, outer):
+        """ORDER BY ... LIMIT 1; order keys are evaluated on keyrel (input columns + output aliases)"""
         n = len(res.rows)
         if not order:
             out = []
             for i in range(n):
                 out.append(Row(z3.And(res.rows[i].guard, z3.Not(z3.Or(*[res.rows[j].guard for j in range(i)])) if i else z3.BoolVal(True)), res.rows[i].vals))
             return Rel(res.cols, out)
-        ok = [self.order_key(order, res, res.rows[i], outer) for i in range(n)]
+        ok = [self.order_key(order, keyrel, keyrel.rows[i], outer) for i in range(n)]
         out = []
         for i in range(n):
             beaten = [z3.And(res.rows[j].guard, z3.Or(self.before(ok[j], ok[i]), z3.And(z3.Not(self.before(ok[i], ok[j])), z3.BoolVal(j < i)))) for j in range(n) if j != i]
